@@ -46,6 +46,7 @@ func specPktName(pkt *defn.Pkt) enc.Name {
 var verifSends int        // number of SendPacket calls so far
 var verifLastFace uint64  // face of the last SendPacket call
 var verifLastToken []byte // PIT token attached to the last packet sent
+var verifSentSet map[uint64]bool // set of faces a packet has been handed to
 
 // Every transmission goes through dispatch.Face.SendPacket. Its precondition is the scope rule, so every call site
 // in the forwarder, present or added later, carries the obligation "not (non-local face and /localhost name)".
@@ -53,24 +54,44 @@ var verifLastToken []byte // PIT token attached to the last packet sent
 //@ func (github.com/named-data/ndnd/fw/dispatch.Face).SendPacket
 //@   requires out.Pkt != nil && out.Pkt.L3 != nil && (out.Pkt.L3.Interest == nil) != (out.Pkt.L3.Data == nil)
 //@   requires !(self.Scope() == defn.NonLocal && specIsLocalhost(specPktName(out.Pkt)))
-//@   modifies verifSends, verifLastFace, verifLastToken
+//@   modifies verifSends, verifLastFace, verifLastToken, verifSentSet[*]
 //@   ensures verifSends == old(verifSends)+1 && verifLastFace == self.FaceID() && sameSlice(verifLastToken, out.PitToken)
+//@   ensures mapHas(verifSentSet, self.FaceID()) && forall(func(k uint64) bool { return k != self.FaceID() ==> mapHas(verifSentSet, k) == old(mapHas(verifSentSet, k)) })
+
+// specUsable: the next hop can take this Interest: the face exists, it is not the point-to-point face the Interest
+// arrived on, the scope rule permits it and the hop limit is not exhausted for a non-local face.
+func specUsable(pkt *defn.Pkt, nexthop uint64, inFace uint64) bool {
+	f := dispatch.GetFace(nexthop)
+	return f != nil && !(nexthop == inFace && f.LinkType() != defn.AdHoc) &&
+		!(f.Scope() == defn.NonLocal && specIsLocalhost(pkt.L3.Interest.NameV)) &&
+		!(pkt.L3.Interest.HopLimitV != nil && *pkt.L3.Interest.HopLimitV == 0 && f.Scope() == defn.NonLocal)
+}
+
+// specIsNexthop: face k is the face of one of the first n next hops.
+func specIsNexthop(nexthops []*table.FibNextHopEntry, n int, k uint64) bool {
+	if n <= 0 {
+		return false
+	}
+	return nexthops[n-1].Nexthop == k || specIsNexthop(nexthops, n-1, k)
+}
 
 // Outgoing pipelines: the only callers of SendPacket besides the NextHopFaceId shortcut. Their contract is what the
 // strategies rely on; the scope rule itself is the precondition of SendPacket (discharged at the call sites inside).
 //
 //@ func (*Thread).processOutgoingData
 //@   requires packet != nil && packet.L3 != nil && packet.L3.Data != nil && packet.L3.Interest == nil
-//@   modifies t.NOutData, t.NSatisfiedInterests, verifSends, verifLastFace, verifLastToken
-//@   ensures [at-most-one] verifSends == old(verifSends) || (verifSends == old(verifSends)+1 && verifLastFace == nexthop && sameSlice(verifLastToken, pitToken))
+//@   modifies t.NOutData, t.NSatisfiedInterests, verifSends, verifLastFace, verifLastToken, verifSentSet[*]
+//@   ensures [at-most-one] (verifSends == old(verifSends) && verifLastFace == old(verifLastFace)) || (verifSends == old(verifSends)+1 && verifLastFace == nexthop && sameSlice(verifLastToken, pitToken))
 //@   ensures [sent-iff-usable] (verifSends == old(verifSends)+1) == (dispatch.GetFace(nexthop) != nil && !(dispatch.GetFace(nexthop).Scope() == defn.NonLocal && specIsLocalhost(packet.L3.Data.NameV)))
 
 //@ func (*Thread).processOutgoingInterest
 //@   requires packet != nil && packet.L3 != nil && packet.L3.Interest != nil && packet.L3.Data == nil && pitEntry != nil
-//@   modifies t.NOutInterests, all(table.PitOutRecord), all(table.basePitEntry), verifSends, verifLastFace, verifLastToken
+//@   modifies t.NOutInterests, all(table.PitOutRecord), all(table.basePitEntry), verifSends, verifLastFace, verifLastToken, verifSentSet[*]
 //@   ensures result ==> !(dispatch.GetFace(nexthop).Scope() == defn.NonLocal && specIsLocalhost(packet.L3.Interest.NameV))
+//@   ensures [usable-iff] result == old(specUsable(packet, nexthop, inFace))
 //@   ensures [sent-iff-true] result ==> verifSends == old(verifSends)+1 && verifLastFace == nexthop
-//@   ensures [nothing-if-false] !result ==> verifSends == old(verifSends)
+//@   ensures [sent-set] forall(func(k uint64) bool { return mapHas(verifSentSet, k) == (old(mapHas(verifSentSet, k)) || (result && k == nexthop)) })
+//@   ensures [nothing-if-false] !result ==> verifSends == old(verifSends) && verifLastFace == old(verifLastFace)
 //@   ensures [not-back] result ==> !(nexthop == inFace && dispatch.GetFace(nexthop).LinkType() != defn.AdHoc)
 //@   ensures [hop-limit] result && packet.L3.Interest.HopLimitV != nil && dispatch.GetFace(nexthop).Scope() == defn.NonLocal ==> *packet.L3.Interest.HopLimitV != 0
 //@   ensures [token-format] result ==> len(verifLastToken) == 6 && enc.SpecBE16(verifLastToken, 0) == uint64(uint16(t.threadID))
@@ -86,7 +107,7 @@ var _ table.PitEntry
 //@   requires packet != nil && packet.L3 != nil && packet.L3.Interest != nil && packet.L3.Data == nil
 //@   assume t.pitCS != nil && t.deadNonceList != nil && t.deadNonceList.list != nil && t.strategies != nil && table.FibStrategyTable != nil
 //@   assume forall(func(k uint64) bool { return t.strategies[k] != nil })
-//@   modifies verifSends, verifLastFace, verifLastToken, all(table.nameTreePitEntry), all(table.pitCsTreeNode), all(table.PitCsTree), t.deadNonceList.expirationQueue.pq, t.NInInterests, *packet.L3.Interest.HopLimitV, packet.L3.Data, packet.L3.Interest, packet.Raw, packet.Name, all(table.DeadNonceList), t.deadNonceList.list[*], all(table.basePitEntry)
+//@   modifies verifSends, verifLastFace, verifLastToken, verifSentSet[*], all(table.nameTreePitEntry), all(table.pitCsTreeNode), all(table.PitCsTree), t.deadNonceList.expirationQueue.pq, t.NInInterests, *packet.L3.Interest.HopLimitV, packet.L3.Data, packet.L3.Interest, packet.Raw, packet.Name, all(table.DeadNonceList), t.deadNonceList.list[*], all(table.basePitEntry)
 //@   loop 2 invariant fresh(allowedNexthops) && len(allowedNexthops) <= rangeindex+1 && cap(allowedNexthops) == len(nexthops) && forallIn(0, len(nexthops), func(i int) bool { return nexthops[i] != nil })
 //@   ensures [reject-nonlocal-localhost] old(packet.IncomingFaceID != nil && dispatch.GetFace(*packet.IncomingFaceID) != nil && dispatch.GetFace(*packet.IncomingFaceID).Scope() == defn.NonLocal && specIsLocalhost(packet.L3.Interest.NameV)) ==> t.NInInterests == old(t.NInInterests)
 
@@ -94,7 +115,7 @@ var _ table.PitEntry
 //@   requires packet != nil && packet.L3 != nil && packet.L3.Data != nil && packet.L3.Interest == nil && sameSlice(packet.Name, packet.L3.Data.NameV)
 //@   assume t.pitCS != nil && t.deadNonceList != nil && t.deadNonceList.list != nil && t.strategies != nil && table.FibStrategyTable != nil
 //@   assume forall(func(k uint64) bool { return t.strategies[k] != nil })
-//@   modifies verifSends, verifLastFace, verifLastToken, all(table.nameTreePitEntry), all(table.pitCsTreeNode), all(table.PitCsTree), all(table.basePitEntry), all(table.baseCsEntry), all(table.PitOutRecord), all(table.PitInRecord), t.deadNonceList.expirationQueue.pq, t.deadNonceList.list[*], t.NInData, t.NOutData, t.NSatisfiedInterests
+//@   modifies verifSends, verifLastFace, verifLastToken, verifSentSet[*], all(table.nameTreePitEntry), all(table.pitCsTreeNode), all(table.PitCsTree), all(table.basePitEntry), all(table.baseCsEntry), all(table.PitOutRecord), all(table.PitInRecord), t.deadNonceList.expirationQueue.pq, t.deadNonceList.list[*], t.NInData, t.NOutData, t.NSatisfiedInterests
 //@   ensures [reject-nonlocal-localhost] old(packet.IncomingFaceID != nil && dispatch.GetFace(*packet.IncomingFaceID) != nil && dispatch.GetFace(*packet.IncomingFaceID).Scope() == defn.NonLocal && len(packet.Name) > 0 && specIsLocalhost(packet.L3.Data.NameV)) ==> t.NOutData == old(t.NOutData) && t.deadNonceList.list == old(t.deadNonceList.list)
 
 // ---------------------------------------------------------------------------------------
@@ -108,17 +129,19 @@ var _ table.PitEntry
 //@   requires s.thread != nil && packet != nil && packet.L3 != nil && packet.L3.Data != nil && packet.L3.Interest == nil
 //@   requires pitEntry != nil && typeIs(pitEntry, "*table.nameTreePitEntry") && pitEntry.(*table.nameTreePitEntry).inRecords != nil
 //@   requires forall(func(k uint64) bool { return mapHas(pitEntry.(*table.nameTreePitEntry).inRecords, k) ==> pitEntry.(*table.nameTreePitEntry).inRecords[k] != nil })
-//@   modifies pitEntry.(*table.nameTreePitEntry).inRecords[*], s.thread.NOutData, s.thread.NSatisfiedInterests, verifSends, verifLastFace, verifLastToken
-//@   ensures [at-most-one] verifSends == old(verifSends) || (verifSends == old(verifSends)+1 && verifLastFace == nexthop)
+//@   modifies pitEntry.(*table.nameTreePitEntry).inRecords[*], s.thread.NOutData, s.thread.NSatisfiedInterests, verifSends, verifLastFace, verifLastToken, verifSentSet[*]
+//@   ensures [at-most-one] (verifSends == old(verifSends) && verifLastFace == old(verifLastFace)) || (verifSends == old(verifSends)+1 && verifLastFace == nexthop)
 //@   ensures [token-echo] verifSends == old(verifSends)+1 && old(mapHas(pitEntry.(*table.nameTreePitEntry).inRecords, nexthop)) ==> sameSlice(verifLastToken, old(pitEntry.(*table.nameTreePitEntry).inRecords[nexthop].PitToken))
 //@   ensures [consumed] !mapHas(pitEntry.(*table.nameTreePitEntry).inRecords, nexthop)
 //@   ensures [others-kept] forall(func(k uint64) bool { return k != nexthop ==> mapHas(pitEntry.(*table.nameTreePitEntry).inRecords, k) == old(mapHas(pitEntry.(*table.nameTreePitEntry).inRecords, k)) && pitEntry.(*table.nameTreePitEntry).inRecords[k] == old(pitEntry.(*table.nameTreePitEntry).inRecords[k]) })
 
 //@ func (*StrategyBase).SendInterest
 //@   requires s.thread != nil && packet != nil && packet.L3 != nil && packet.L3.Interest != nil && packet.L3.Data == nil && pitEntry != nil
-//@   modifies s.thread.NOutInterests, all(table.PitOutRecord), all(table.basePitEntry), verifSends, verifLastFace, verifLastToken
+//@   modifies s.thread.NOutInterests, all(table.PitOutRecord), all(table.basePitEntry), verifSends, verifLastFace, verifLastToken, verifSentSet[*]
 //@   ensures result ==> verifSends == old(verifSends)+1 && verifLastFace == nexthop && !(nexthop == inFace && dispatch.GetFace(nexthop).LinkType() != defn.AdHoc)
-//@   ensures !result ==> verifSends == old(verifSends)
+//@   ensures !result ==> verifSends == old(verifSends) && verifLastFace == old(verifLastFace)
+//@   ensures [usable-iff] result == old(specUsable(packet, nexthop, inFace))
+//@   ensures [sent-set] forall(func(k uint64) bool { return mapHas(verifSentSet, k) == (old(mapHas(verifSentSet, k)) || (result && k == nexthop)) })
 
 // Data served from the cache goes to the face of the Interest alone.
 //
@@ -126,15 +149,15 @@ var _ table.PitEntry
 //@   requires s.thread != nil && packet != nil && packet.L3 != nil && packet.L3.Data != nil && packet.L3.Interest == nil
 //@   requires pitEntry != nil && typeIs(pitEntry, "*table.nameTreePitEntry") && pitEntry.(*table.nameTreePitEntry).inRecords != nil
 //@   requires forall(func(k uint64) bool { return mapHas(pitEntry.(*table.nameTreePitEntry).inRecords, k) ==> pitEntry.(*table.nameTreePitEntry).inRecords[k] != nil })
-//@   modifies pitEntry.(*table.nameTreePitEntry).inRecords[*], s.thread.NOutData, s.thread.NSatisfiedInterests, verifSends, verifLastFace, verifLastToken
-//@   ensures verifSends == old(verifSends) || (verifSends == old(verifSends)+1 && verifLastFace == inFace)
+//@   modifies pitEntry.(*table.nameTreePitEntry).inRecords[*], s.thread.NOutData, s.thread.NSatisfiedInterests, verifSends, verifLastFace, verifLastToken, verifSentSet[*]
+//@   ensures (verifSends == old(verifSends) && verifLastFace == old(verifLastFace)) || (verifSends == old(verifSends)+1 && verifLastFace == inFace)
 
 //@ func (*Multicast).AfterContentStoreHit
 //@   requires s.thread != nil && packet != nil && packet.L3 != nil && packet.L3.Data != nil && packet.L3.Interest == nil
 //@   requires pitEntry != nil && typeIs(pitEntry, "*table.nameTreePitEntry") && pitEntry.(*table.nameTreePitEntry).inRecords != nil
 //@   requires forall(func(k uint64) bool { return mapHas(pitEntry.(*table.nameTreePitEntry).inRecords, k) ==> pitEntry.(*table.nameTreePitEntry).inRecords[k] != nil })
-//@   modifies pitEntry.(*table.nameTreePitEntry).inRecords[*], s.thread.NOutData, s.thread.NSatisfiedInterests, verifSends, verifLastFace, verifLastToken
-//@   ensures verifSends == old(verifSends) || (verifSends == old(verifSends)+1 && verifLastFace == inFace)
+//@   modifies pitEntry.(*table.nameTreePitEntry).inRecords[*], s.thread.NOutData, s.thread.NSatisfiedInterests, verifSends, verifLastFace, verifLastToken, verifSentSet[*]
+//@   ensures (verifSends == old(verifSends) && verifLastFace == old(verifLastFace)) || (verifSends == old(verifSends)+1 && verifLastFace == inFace)
 
 // Incoming Data: one SendData per pending in-record; every in-record is consumed, so a repeated copy of the Data
 // finds none; nothing is sent to a face that held no in-record.
@@ -143,22 +166,57 @@ var _ table.PitEntry
 //@   requires s.thread != nil && packet != nil && packet.L3 != nil && packet.L3.Data != nil && packet.L3.Interest == nil
 //@   requires pitEntry != nil && typeIs(pitEntry, "*table.nameTreePitEntry") && pitEntry.(*table.nameTreePitEntry).inRecords != nil
 //@   requires forall(func(k uint64) bool { return mapHas(pitEntry.(*table.nameTreePitEntry).inRecords, k) ==> pitEntry.(*table.nameTreePitEntry).inRecords[k] != nil })
-//@   modifies pitEntry.(*table.nameTreePitEntry).inRecords[*], s.thread.NOutData, s.thread.NSatisfiedInterests, verifSends, verifLastFace, verifLastToken
+//@   modifies pitEntry.(*table.nameTreePitEntry).inRecords[*], s.thread.NOutData, s.thread.NSatisfiedInterests, verifSends, verifLastFace, verifLastToken, verifSentSet[*]
 //@   ensures [all-consumed] forall(func(k uint64) bool { return !mapHas(pitEntry.(*table.nameTreePitEntry).inRecords, k) })
-//@   ensures [only-pending-faces] verifSends != old(verifSends) ==> old(mapHas(pitEntry.(*table.nameTreePitEntry).inRecords, verifLastFace))
+//@   ensures [only-pending-faces] verifLastFace == old(verifLastFace) || forall(func(k uint64) bool { return k == verifLastFace ==> old(mapHas(pitEntry.(*table.nameTreePitEntry).inRecords, k)) })
 //@   loop 1 invariant pitEntry.(*table.nameTreePitEntry).inRecords == old(pitEntry.(*table.nameTreePitEntry).inRecords)
 //@   loop 1 invariant forall(func(k uint64) bool { return mapHas(pitEntry.(*table.nameTreePitEntry).inRecords, k) ==> old(mapHas(pitEntry.(*table.nameTreePitEntry).inRecords, k)) && pitEntry.(*table.nameTreePitEntry).inRecords[k] != nil })
 //@   loop 1 invariant forall(func(k uint64) bool { return visited(k) ==> !mapHas(pitEntry.(*table.nameTreePitEntry).inRecords, k) })
-//@   loop 1 invariant verifSends != old(verifSends) ==> old(mapHas(pitEntry.(*table.nameTreePitEntry).inRecords, verifLastFace))
+//@   loop 1 invariant verifLastFace == old(verifLastFace) || forall(func(k uint64) bool { return k == verifLastFace ==> old(mapHas(pitEntry.(*table.nameTreePitEntry).inRecords, k)) })
 
 //@ func (*Multicast).AfterReceiveData
 //@   requires s.thread != nil && packet != nil && packet.L3 != nil && packet.L3.Data != nil && packet.L3.Interest == nil
 //@   requires pitEntry != nil && typeIs(pitEntry, "*table.nameTreePitEntry") && pitEntry.(*table.nameTreePitEntry).inRecords != nil
 //@   requires forall(func(k uint64) bool { return mapHas(pitEntry.(*table.nameTreePitEntry).inRecords, k) ==> pitEntry.(*table.nameTreePitEntry).inRecords[k] != nil })
-//@   modifies pitEntry.(*table.nameTreePitEntry).inRecords[*], s.thread.NOutData, s.thread.NSatisfiedInterests, verifSends, verifLastFace, verifLastToken
+//@   modifies pitEntry.(*table.nameTreePitEntry).inRecords[*], s.thread.NOutData, s.thread.NSatisfiedInterests, verifSends, verifLastFace, verifLastToken, verifSentSet[*]
 //@   ensures [all-consumed] forall(func(k uint64) bool { return !mapHas(pitEntry.(*table.nameTreePitEntry).inRecords, k) })
-//@   ensures [only-pending-faces] verifSends != old(verifSends) ==> old(mapHas(pitEntry.(*table.nameTreePitEntry).inRecords, verifLastFace))
+//@   ensures [only-pending-faces] verifLastFace == old(verifLastFace) || forall(func(k uint64) bool { return k == verifLastFace ==> old(mapHas(pitEntry.(*table.nameTreePitEntry).inRecords, k)) })
 //@   loop 1 invariant pitEntry.(*table.nameTreePitEntry).inRecords == old(pitEntry.(*table.nameTreePitEntry).inRecords)
 //@   loop 1 invariant forall(func(k uint64) bool { return mapHas(pitEntry.(*table.nameTreePitEntry).inRecords, k) ==> old(mapHas(pitEntry.(*table.nameTreePitEntry).inRecords, k)) && pitEntry.(*table.nameTreePitEntry).inRecords[k] != nil })
 //@   loop 1 invariant forall(func(k uint64) bool { return visited(k) ==> !mapHas(pitEntry.(*table.nameTreePitEntry).inRecords, k) })
-//@   loop 1 invariant verifSends != old(verifSends) ==> old(mapHas(pitEntry.(*table.nameTreePitEntry).inRecords, verifLastFace))
+//@   loop 1 invariant verifLastFace == old(verifLastFace) || forall(func(k uint64) bool { return k == verifLastFace ==> old(mapHas(pitEntry.(*table.nameTreePitEntry).inRecords, k)) })
+
+// Incoming Interest, strategy step. Nothing is sent to a face that is not among the FIB next hops handed to the strategy.
+// Best-route sends at most one copy, to a usable next hop of lowest cost; multicast sends to every usable next hop.
+// The first Interest (no out-record yet, so nothing to suppress) with a usable next hop is forwarded.
+// Suppression itself compares wall-clock times and is not specified here (A-CLOCK).
+//
+//@ func (*BestRoute).AfterReceiveInterest
+//@   requires s.thread != nil && packet != nil && packet.L3 != nil && packet.L3.Interest != nil && packet.L3.Data == nil && packet.L3.Interest.NonceV != nil
+//@   requires pitEntry != nil && typeIs(pitEntry, "*table.nameTreePitEntry")
+//@   requires forallIn(0, len(nexthops), func(i int) bool { return nexthops[i] != nil })
+//@   modifies nexthops[*], s.thread.NOutInterests, all(table.PitOutRecord), all(table.basePitEntry), verifSends, verifLastFace, verifLastToken, verifSentSet[*]
+//@   ensures [at-most-one] (verifSends == old(verifSends) && verifLastFace == old(verifLastFace)) || verifSends == old(verifSends)+1
+//@   ensures [only-fib-faces] forall(func(k uint64) bool { return mapHas(verifSentSet, k) == (old(mapHas(verifSentSet, k)) || (verifSends == old(verifSends)+1 && k == verifLastFace)) })
+//@   ensures [lowest-cost-usable] verifSends == old(verifSends)+1 ==> existsIn(0, len(nexthops), func(i int) bool { return nexthops[i].Nexthop == verifLastFace && specUsable(packet, verifLastFace, inFace) && forallIn(0, len(nexthops), func(j int) bool { return specUsable(packet, nexthops[j].Nexthop, inFace) ==> nexthops[i].Cost <= nexthops[j].Cost }) })
+//@   ensures [first-forwarded] old(forall(func(k uint64) bool { return !mapHas(pitEntry.(*table.nameTreePitEntry).outRecords, k) })) && existsIn(0, len(nexthops), func(i int) bool { return specUsable(packet, nexthops[i].Nexthop, inFace) }) ==> verifSends == old(verifSends)+1
+//@   loop 1 invariant verifSends == old(verifSends)
+//@   loop 2 invariant verifSends == old(verifSends) && verifLastFace == old(verifLastFace)
+//@   loop 2 invariant forall(func(k uint64) bool { return mapHas(verifSentSet, k) == old(mapHas(verifSentSet, k)) })
+//@   loop 2 invariant forallIn(0, len(nexthops), func(i int) bool { return nexthops[i] != nil })
+//@   loop 2 invariant forallIn(0, len(nexthops), func(a int) bool { return forallIn(0, len(nexthops), func(b int) bool { return a < b ==> nexthops[a].Cost <= nexthops[b].Cost }) })
+//@   loop 2 invariant forallIn(0, rangeindex+1, func(j int) bool { return !specUsable(packet, nexthops[j].Nexthop, inFace) })
+
+//@ func (*Multicast).AfterReceiveInterest
+//@   opaque specIsLocalhost
+//@   option binder-typing
+//@   requires s.thread != nil && packet != nil && packet.L3 != nil && packet.L3.Interest != nil && packet.L3.Data == nil && packet.L3.Interest.NonceV != nil
+//@   requires pitEntry != nil && typeIs(pitEntry, "*table.nameTreePitEntry")
+//@   requires forallIn(0, len(nexthops), func(i int) bool { return nexthops[i] != nil })
+//@   modifies s.thread.NOutInterests, all(table.PitOutRecord), all(table.basePitEntry), verifSends, verifLastFace, verifLastToken, verifSentSet[*]
+//@   ensures [only-fib-faces] forall(func(k uint64) bool { return mapHas(verifSentSet, k) && !old(mapHas(verifSentSet, k)) ==> specIsNexthop(nexthops, len(nexthops), k) && specUsable(packet, k, inFace) })
+//@   ensures [all-usable] old(forall(func(k uint64) bool { return !mapHas(pitEntry.(*table.nameTreePitEntry).outRecords, k) })) ==> forallIn(0, len(nexthops), func(i int) bool { return specUsable(packet, nexthops[i].Nexthop, inFace) ==> mapHas(verifSentSet, nexthops[i].Nexthop) })
+//@   loop 1 invariant verifSends == old(verifSends)
+//@   loop 2 invariant forall(func(k uint64) bool { return old(mapHas(verifSentSet, k)) ==> mapHas(verifSentSet, k) })
+//@   loop 2 invariant forall(func(k uint64) bool { return mapHas(verifSentSet, k) && !old(mapHas(verifSentSet, k)) ==> specIsNexthop(nexthops, rangeindex+1, k) && specUsable(packet, k, inFace) })
+//@   loop 2 invariant forallIn(0, rangeindex+1, func(i int) bool { return specUsable(packet, nexthops[i].Nexthop, inFace) ==> mapHas(verifSentSet, nexthops[i].Nexthop) })
